@@ -188,3 +188,18 @@ func ArgLists() [][]stick.Value {
 		{[]int{1, 2}}, {[]stick.Value{1}}, {1, "b"}, {int64(1), int8(2)}, {math.NaN()}, {func() {}},
 	}
 }
+
+// KindInt, KindBool and KindFloat are named scalar types whose String method returns an arbitrary text:
+// what such a value prints as is decided by the method, not by its kind.
+type (
+	KindInt   int
+	KindBool  bool
+	KindFloat float64
+)
+
+// KindText is what the Kind* values print as (set by the single goroutine that renders with them).
+var KindText string
+
+func (KindInt) String() string   { return KindText }
+func (KindBool) String() string  { return KindText }
+func (KindFloat) String() string { return KindText }
